@@ -354,6 +354,48 @@ def session_oracle(case):
         s.close()
 
 
+# --- boundary lattice of numeric command arguments (enumerated completely, like C13's lattice)
+LATTICE = [-(2 ** 31) - 1, -32769, -129, -1, 0, 1, 2, 7, 63, 64, 255, 256, 32767, 65536, 2 ** 31, 10 ** 20]
+ONE_ARG = ["RXTUNE", "TXTUNE", "MEASURE", "SETFORMAT", "SETPOWER", "RFMUTE", "SETTA", "FAKE_TOA", "FAKE_RSSI", "FAKE_CI", "FAKE_DROP", "FAKE_TRXC_DELAY"]
+TWO_ARG = ["FAKE_TOA", "FAKE_RSSI", "FAKE_CI", "FAKE_DROP"]
+
+
+def ctrl_boundary_lattice(ctx, rec):
+    """every numeric TRXC command with every argument (pair) on the boundary lattice, sent to a running transceiver that
+    then has to carry traffic (clock path), run the recovery script and carry strictly checked traffic again"""
+    from harness.core import Failure
+    cmds = []
+    for v in ONE_ARG:
+        cmds += ["%s %d" % (v, a) for a in LATTICE]
+    for v in TWO_ARG:
+        cmds += ["%s %d %d" % (v, a, b) for a in LATTICE for b in LATTICE]
+    cmds += ["SETFH %d %d 935000 890000 935200 890200" % (a, b) for a in LATTICE for b in LATTICE]
+    cmds += ["SETFH 5 0 %d %d" % (a, b) for a in LATTICE for b in LATTICE if (a, b) != (0, 0)]
+    fails, sigs = [], set()
+    n = 0
+    for k, c in enumerate(cmds):
+        case = {"rseed": k, "steps": [{"op": "bad_ctrl", "t": k % 2, "data": ("CMD " + c).encode() + b"\0", "probe_fn": [100, 0, 2715647, 2000001][k % 4]}]}
+        try:
+            session_oracle(case)
+            n += 1
+        except Violation as v:
+            if v.sig not in sigs:
+                sigs.add(v.sig)
+                fails.append(Failure("ctrl_boundary_lattice", case, v.sig, "%s -> %s" % (c, v.msg)))
+        except HarnessError:
+            raise
+        except Exception as e:
+            sig = repo_frame_sig(e)
+            if sig is None:
+                raise
+            if sig not in sigs:
+                sigs.add(sig)
+                fails.append(Failure("ctrl_boundary_lattice", case, "c14:lattice:exception-escapes:" + sig, "%s -> %r" % (c, e)))
+    rec.bulk(len(cmds), n, {"lattice-commands": len(cmds)}, [{"command": cmds[5]}, {"command": cmds[400]}])
+    rec.exhaustive = True
+    return fails
+
+
 # --- stateless control input on a fresh application
 def raw_ctrl_oracle(case):
     s = Session(CFG, set(), "c14")
@@ -640,10 +682,12 @@ SUBS = [
                                                          "idx": st.integers(0, 6)}), oracle=capture_oracle,
         examples={"quick": 1500, "thorough": 60000}),
     Sub("sessions", strategy=session_case(), oracle=session_oracle, examples={"quick": 500, "thorough": 20000}),
+    Sub("ctrl_boundary_lattice", fn=ctrl_boundary_lattice),
     Sub("trxcon_callbacks", strategy=st.fixed_dictionaries({"actions": st.lists(trxcon_action(), min_size=1, max_size=12)}),
         oracle=trxcon_oracle, examples={"quick": 1500, "thorough": 60000}, prepare=prepare),
     Sub("atheris_campaigns", fn=atheris_campaigns),
     Sub("libfuzzer_trxif", fn=libfuzzer_trxif),
 ]
+[x for x in SUBS if x.name == "ctrl_boundary_lattice"][0].replay = session_oracle
 SUBS[-2].replay = fuzz_replay
 SUBS[-1].replay = libfuzzer_replay
